@@ -23,15 +23,27 @@
       event log to them;
     - [reexec H fresh cmds] applies the commands one by one with [Command.Apply],
       [commands_apply] is [tpm.Commands.Apply] (stops at the first error);
-    - [wf_flow l logged fl]: the items of the flow, in order and however grouped
-      in steps, are one startup at locality [l] ([startup_form]: InitTPM(l,true);
-      or InitTPM(l,false) / TPMInit(l) alone; or one of these with a separate
-      LogInit(l) step before or after) followed by measurements each of which
-      extends and logs the same digest ([meas_item]: TPMEvent with an event type
-      other than EV_NO_ACTION, or the PCR0_DATA pair with readable references;
-      Panic steps, which do nothing to the TPM, may be interspersed).
-      Measurements may fail (data source error or panic, unreadable reference,
-      PCR index other than 0/1): they then leave no trace in PCRs or event log. *)
+    - [wf_flow ref bytes_of H l logged fl]: the class of flows of the property's
+      quantifier.  The items of the flow, in order and however grouped in steps, are
+      one startup at locality [l] ([startup_form]: InitTPM(l,true); or
+      InitTPM(l,false) / TPMInit(l) alone; or one of these with a separate
+      LogInit(l) step before or after) followed by measurements ([meas_body]),
+      each of which extends and logs the same digest:
+        TPM2_PCR_Event style: TPMEvent / tpmsteps.Measure with an event type other
+          than EV_NO_ACTION (see C01_evlog_replay_noaction_type_refuted);
+        TPM2_PCR_Extend style: TPMExtend of data whose converted bytes are a digest
+          [dg] of the bank's size into PCR 0 or 1, directly followed by
+          TPMEventLogAdd of the same [dg] (event type other than EV_NO_ACTION);
+        the PCR0_DATA pair with readable references;
+      Panic steps and further TPMInit / InitTPM(_, false) items (refused: the TPM
+      is already initialised), which do nothing to PCRs and event log, may be
+      interspersed.  Measurements may fail (data source error or panic,
+      unreadable reference, PCR index other than 0/1): they then leave no trace
+      in PCRs or event log.
+
+    Naming: [_partial] = the statement carries a hypothesis the property text
+    does not have (said in the comment above it); [_refuted] = closed witness that
+    the statement without that hypothesis is false of the faithful model. *)
 From CSS Require Import Lib.Base Model.TPM Proofs.TPM Model.BootSim Proofs.BootSim.
 
 (** * 1. Command log *)
@@ -50,17 +62,21 @@ Proof.
 Qed.
 Print Assumptions C01_cmdlog_replay.
 
-(** [tpm.Commands.Apply] (which gives up at the first command that returns an
-    error) reproduces them for the flows that ran without a step issue ... *)
-Theorem C01_cmdlog_apply : forall ref bytes_of H fl,
+(** [tpm.Commands.Apply] (the batch routine; it gives up at the first command
+    that returns an error) reproduces them for the flows that ran without a step
+    issue.  PARTIAL: the hypothesis [no_issues] is not in the property text; the
+    command log also records the commands that failed, and ... *)
+Theorem C01_cmdlog_apply_partial : forall ref bytes_of H fl,
   let t := s_tpm (fst (run_flow ref bytes_of H sim0 fl)) in
   no_issues (snd (run_flow ref bytes_of H sim0 fl)) ->
   exists t', commands_apply H fresh (cmdlog t) = (t', Ok tt) /\ pcrs t' = pcrs t /\ evlog t' = evlog t.
 Proof. exact cmdlog_apply. Qed.
-Print Assumptions C01_cmdlog_apply.
+Print Assumptions C01_cmdlog_apply_partial.
 
-(** ... and not otherwise: after InitTPM, a second TPMInit (refused, logged) and a
-    measurement, it stops at the second TPMInit. *)
+(** ... on such a log Commands.Apply does not get through: after InitTPM, a
+    second TPMInit (refused, but logged) and a measurement, it stops at the second
+    TPMInit and the measurement is never re-executed (re-executing command by
+    command, C01_cmdlog_replay, is not affected). *)
 Theorem C01_cmdlog_apply_refuted :
   exists t' e, commands_apply toy_hash fresh (cmdlog (toy_run fl_double_init)) = (t', Err e) /\
                pcrs t' <> pcrs (toy_run fl_double_init).
@@ -69,21 +85,28 @@ Print Assumptions C01_cmdlog_apply_refuted.
 
 (** * 2. Event log, the routine that knows only the log (tpmeventlog.Replay) *)
 
-(** Both banks, both PCRs; startup logged (locality below 128, see the refuted
-    statement below) or at locality 0. *)
-Theorem C01_evlog_replay : forall ref bytes_of H,
+(** Both banks, both PCRs, every locality; startup logged, or at locality 0 (the
+    restriction the property text itself makes for this routine).
+    PARTIAL only in this: [wf_flow] demands an event type other than EV_NO_ACTION
+    of every TPMEvent, which the property text ("arbitrary" measurements) does
+    not (finding C01-noaction-typed-event-extended, refuted statement below).
+    The rest of [wf_flow] is the property's class of flows: one TPM startup, then
+    measurements that extend and log; the three witnesses after it show that a
+    flow which extends without logging, logs without extending, or starts at an
+    unlogged non-zero locality is rightly outside. *)
+Theorem C01_evlog_replay_partial : forall ref bytes_of H,
   (forall a x, length (H a x) = hsize a) ->
   forall fl l logged p a,
-  wf_flow ref bytes_of l logged fl ->
+  wf_flow ref bytes_of H l logged fl ->
   logged = true \/ (logged = false /\ l = 0) ->
   (p = 0 \/ p = 1) -> is_supported a = true ->
   exists v, get (pcrs (s_tpm (fst (run_flow ref bytes_of H sim0 fl)))) p a = Ok v /\
             EL.replay H (to_parsed (evlog (s_tpm (fst (run_flow ref bytes_of H sim0 fl))))) p a = Ok v.
 Proof. exact evlog_replay. Qed.
-Print Assumptions C01_evlog_replay.
+Print Assumptions C01_evlog_replay_partial.
 
-(** The well-formedness hypothesis is necessary.  A bare TPMExtend has no log
-    entry: PCR0 differs from both replays ... *)
+(** What is outside the class.  A bare TPMExtend has no log entry: PCR0 differs
+    from both replays ... *)
 Theorem C01_evlog_replay_bare_extend_refuted :
   exists v v', get (pcrs (toy_run fl_bare_extend)) 0 ALG_SHA1 = Ok v /\
                EL.replay toy_hash (to_parsed (evlog (toy_run fl_bare_extend))) 0 ALG_SHA1 = Ok v' /\
@@ -99,10 +122,20 @@ Theorem C01_evlog_replay_log_only_refuted :
 Proof. exact log_only_differs. Qed.
 Print Assumptions C01_evlog_replay_log_only_refuted.
 
-(** ... a TPMEvent of type EV_NO_ACTION is extended but skipped by the replay ... *)
+(** ... a TPMEvent of type EV_NO_ACTION (InitTPM(0, false), then
+    tpmsteps.Measure(0 | 1, EV_NO_ACTION, data); flows.AMDGenoaLocality0V2 has such
+    a step) is extended into the PCR by TPMEvent.Apply, but tpm.EventLog.Replay
+    skips its log entry and tpmeventlog.Replay rejects the log (it accepts an
+    EV_NO_ACTION entry only as the startup-locality entry): neither replay of the
+    simulator's own log gives the PCR value.  Known finding
+    C01-noaction-typed-event-extended ... *)
 Theorem C01_evlog_replay_noaction_type_refuted :
-  exists v, get (pcrs (toy_run fl_noaction_type)) 1 ALG_SHA256 = Ok v /\
-            EL.replay toy_hash (to_parsed (evlog (toy_run fl_noaction_type))) 1 ALG_SHA256 <> Ok v.
+  exists v0 v1,
+    get (pcrs (toy_run fl_noaction_type)) 0 ALG_SHA1 = Ok v0 /\
+    get (pcrs (toy_run fl_noaction_type)) 1 ALG_SHA1 = Ok v1 /\
+    EL.tpm_replay toy_hash (to_entries (evlog (toy_run fl_noaction_type))) 0 ALG_SHA1 0 <> Ok v0 /\
+    EL.replay toy_hash (to_parsed (evlog (toy_run fl_noaction_type))) 0 ALG_SHA1 <> Ok v0 /\
+    EL.replay toy_hash (to_parsed (evlog (toy_run fl_noaction_type))) 1 ALG_SHA1 <> Ok v1.
 Proof. exact noaction_type_differs. Qed.
 Print Assumptions C01_evlog_replay_noaction_type_refuted.
 
@@ -124,15 +157,17 @@ Proof. exact locality_200_replays. Qed.
 (** * 3. Event log, the in-simulator routine seeded with the startup locality *)
 
 (** tpm.EventLog.Replay(0, a, l): every locality, logged startup or not (the
-    EV_NO_ACTION entries are skipped), both banks; PCR0 is the only PCR it accepts. *)
-Theorem C01_tpmReplay : forall ref bytes_of H,
+    EV_NO_ACTION entries are skipped), both banks; PCR0 is the only PCR it accepts.
+    PARTIAL as C01_evlog_replay_partial (event types other than EV_NO_ACTION);
+    C01_evlog_replay_bare_extend_refuted covers this routine as well. *)
+Theorem C01_tpmReplay_partial : forall ref bytes_of H,
   (forall a x, length (H a x) = hsize a) ->
   forall fl l logged a,
-  wf_flow ref bytes_of l logged fl -> is_supported a = true ->
+  wf_flow ref bytes_of H l logged fl -> is_supported a = true ->
   exists v, get (pcrs (s_tpm (fst (run_flow ref bytes_of H sim0 fl)))) 0 a = Ok v /\
             EL.tpm_replay H (to_entries (evlog (s_tpm (fst (run_flow ref bytes_of H sim0 fl))))) 0 a l = Ok v.
 Proof. exact tpm_replay_eq. Qed.
-Print Assumptions C01_tpmReplay.
+Print Assumptions C01_tpmReplay_partial.
 
 (** * 4. Digests *)
 
@@ -195,29 +230,49 @@ Example C01_toy_hash_length : forall a x, length (toy_hash a x) = hsize a.
 Proof. exact toy_hash_length. Qed.
 
 (** InitTPM(3, true) and a PCR0 measurement in ONE step, then the PCR0_DATA pair,
-    a failing measurement (PCR 7), a PCR1 measurement with a Hasher converter *)
+    a failing measurement (PCR 7), a PCR1 measurement with a Hasher converter, a
+    refused second TPMInit, and a TPM2_PCR_Extend-style measurement: TPMExtend of
+    the SHA256-converted bytes into PCR 1 and, in the next step, the log entry
+    with the same digest *)
 Definition example_flow : list (list (item (list Z))) :=
   [ [IInitTPM 3 true; IEvent 0 toy_data 1 (Some [9])];
     [IPCR0Data (Some [[1]; [2; 3]; [4]]) (Some [[1]; [2; 3]; [5; 6]])];
-    [IEvent 7 toy_data 1 None; IEvent 1 (DS (mkData [[8; 8]] (Some ALG_SHA256))) 2147483658 None] ].
+    [IEvent 7 toy_data 1 None; IEvent 1 (DS (mkData [[8; 8]] (Some ALG_SHA256))) 2147483658 None];
+    [IInit 0; IExtend 1 (DS (mkData [[7]; [7; 7]] (Some ALG_SHA256))) ALG_SHA256];
+    [ILogAdd 1 ALG_SHA256 (toy_hash ALG_SHA256 [7; 7; 7]) 13 (Some [1; 2])] ].
 
-Example C01_wf_flow_satisfiable : wf_flow (list Z) lit_bytes 3 true example_flow.
+Example C01_wf_flow_satisfiable : wf_flow (list Z) lit_bytes toy_hash 3 true example_flow.
 Proof.
   exists [IInitTPM 3 true]. eexists. split; [reflexivity|]. split; [constructor|].
   assert (R : forall rs, readable (list Z) lit_bytes (Some rs)).
   { intros rs. exists (concat rs). exists rs. split; [|reflexivity].
     induction rs; constructor; [reflexivity|assumption]. }
-  repeat constructor; cbn [meas_item]; try (unfold EV_NO_ACTION; discriminate); apply R.
+  apply MB_item; [cbn [meas_item]; unfold EV_NO_ACTION; discriminate|].
+  apply MB_item; [cbn [meas_item]; split; apply R|].
+  apply MB_item; [cbn [meas_item]; unfold EV_NO_ACTION; discriminate|].
+  apply MB_item; [cbn [meas_item]; unfold EV_NO_ACTION; discriminate|].
+  apply MB_item; [exact I|].
+  apply MB_pair; [right; reflexivity|reflexivity|reflexivity|reflexivity|unfold EV_NO_ACTION; discriminate|].
+  apply MB_nil.
 Qed.
 
 Example C01_example_values :
   let t := toy_run example_flow in
-  length (cmdlog t) = 16%nat /\ length (evlog t) = 8%nat /\
+  length (cmdlog t) = 19%nat /\ length (evlog t) = 9%nat /\
   get (pcrs t) 0 ALG_SHA1 = EL.replay toy_hash (to_parsed (evlog t)) 0 ALG_SHA1 /\
   get (pcrs t) 1 ALG_SHA256 = EL.replay toy_hash (to_parsed (evlog t)) 1 ALG_SHA256 /\
   get (pcrs t) 0 ALG_SHA256 = EL.tpm_replay toy_hash (to_entries (evlog t)) 0 ALG_SHA256 3 /\
   get (pcrs t) 0 ALG_SHA1 <> Ok (repeat 0 19 ++ [3]).
-Proof. cbv zeta. repeat split; try (vm_compute; reflexivity). vm_compute. discriminate. Qed.
+Proof.
+  (* conjunct by conjunct: [repeat split] would try [eq_refl] on the equations by lazy conversion *)
+  cbv zeta.
+  split; [vm_compute; reflexivity|].
+  split; [vm_compute; reflexivity|].
+  split; [vm_compute; reflexivity|].
+  split; [vm_compute; reflexivity|].
+  split; [vm_compute; reflexivity|].
+  vm_compute. discriminate.
+Qed.
 
 (** a flow with a failing action: [no_issues] is false for it, and is true for a clean one *)
 Example C01_no_issues_satisfiable :
